@@ -224,6 +224,17 @@ pub fn compare(r: &RefMsg, o: &ObsMsg) -> Vec<Mismatch> {
                         expected: format!("{:?}", e.exp),
                         observed: format!("{:?}", v),
                     });
+                    // a scaled value that was transmitted but is reported as absent is not
+                    // reported as raw/divisor either: C10 is violated along with C11 (the reverse,
+                    // a 'not available' code reported as a value, is C11's alone)
+                    if let (Exp::F(Some(_)), Val::F(None), 10) = (&e.exp, v, e.prop) {
+                        out.push(Mismatch {
+                            key: keyname(e.key, e.idx),
+                            prop: 10,
+                            expected: format!("{:?}", e.exp),
+                            observed: "absent, although the transmitted raw value is not the 'not available' code".into(),
+                        });
+                    }
                 }
             }
         }
